@@ -59,6 +59,8 @@ def inst(S, v, cname):
             return z3.BoolVal(False)
         if scls is not None and scls in SUBCLASSES.get(cname, ()):
             return z3.BoolVal(True)
+        if scls is not None and cname in SUBCLASSES and cname not in SUBCLASSES.get(scls, ()):
+            return z3.BoolVal(False)
         return isinstance_f(S.A('cls'), v.t, cname)
     if k == 'opt':
         return z3.And(z3.Not(v.none), inst(S, V(v.ty.a[0], v.t), cname))
